@@ -497,6 +497,22 @@ Proof.
   - intros b Hb. cbn. rewrite length_upd_nth. apply H4. exact Hb.
 Qed.
 
+Lemma do_pause_deferred_PK msg next : PK (do_pause_deferred msg next).
+Proof.
+  intro w. unfold do_pause_deferred. pstep. destruct next as [ns|]; [destruct (pausing w) as [a'|]|]; try (apply do_pause_PK; apply do_ctl_PK).
+  pstep; [|intro wz; pweak]. pstep; [apply transition_PK|]. pstep. pstep.
+  match goal with |- Hat _ _ (if ?c then _ else _) _ => destruct c end; [apply do_pause_PK; apply do_ctl_PK | apply Pat_ret].
+Qed.
+
+Lemma do_pause_deferred_clears msg next w : wp (do_pause_deferred msg next) (fun _ s => pausing s = None) w.
+Proof.
+  unfold do_pause_deferred. do 2 wp_prim.
+  assert (Hold : wp (do_pause (do_ctl reent_fuel) msg next) (fun _ s => pausing s = None) w)
+    by (unfold do_pause; apply (finally_post _ _ (fun s => pausing s = None)); intro s; reflexivity).
+  destruct next as [ns|]; [|exact Hold]. destruct (pausing w) as [a'|]; [|exact Hold].
+  apply (finally_post _ _ (fun s => pausing s = None)). intro s. reflexivity.
+Qed.
+
 Lemma run_action_PK id next : PK (run_action id next).
 Proof.
   intro w. unfold run_action. pstep. destruct (get_act w id) as [a|] eqn:G; [|apply Pat_raise].
@@ -516,9 +532,8 @@ Proof.
   assert (Kind : forall w1 a1, RelP w w1 -> get_act w1 id = Some a1 -> a_kind a1 = a_kind a).
   { intros w1 a1 (_ & K1 & _) G1. destruct (K1 _ _ G) as (a2 & G2 & E2). congruence. }
   destruct (a_kind a) as [msg|msg] eqn:Kd.
-  - pose proof (do_pause_PK _ (do_ctl_PK reent_fuel) msg next w (fun _ w1 => RelP w w1) HP (fun _ _ X => X)) as H1.
-    unfold do_pause in *.
-    eapply wp_use; [apply wp_conj; [exact H1 | apply (finally_post _ _ (fun s => pausing s = None)); intro s; reflexivity]|].
+  - pose proof (do_pause_deferred_PK msg next w (fun _ w1 => RelP w w1) HP (fun _ _ X => X)) as H1.
+    eapply wp_use; [apply wp_conj; [exact H1 | apply do_pause_deferred_clears]|].
     intros r w1 [R1 C1]. cbv beta. apply Hrest; [exact R1 | congruence |].
     intro X. destruct R1 as (P1 & K1 & _). destruct P1 as (_ & _ & H3 & _). destruct (H3 id X) as (_ & ac & Ga & _ & Sa).
     destruct (K1 _ _ G) as (a2 & G2 & E2). rewrite Ga in G2. injection G2 as <-. rewrite E2, Kd in Sa. discriminate.
